@@ -70,6 +70,7 @@ L:
 	timers()
 	racy()
 	contexts()
+	conds()
 	if len(os.Args) > 1 {
 		os.Exit(3)
 	}
@@ -258,4 +259,46 @@ func contexts() {
 	<-done
 	_, has := child.Deadline()
 	fmt.Println("ctx-done", has)
+}
+
+// condition variable: a bounded queue with one producer and two consumers
+func conds() {
+	var mu sync.Mutex
+	notEmpty := sync.NewCond(&mu)
+	var q []int
+	closed := false
+	total := 0
+	var wg sync.WaitGroup
+	for c := 0; c < 2; c++ {
+		wg.Add(1)
+		go func() {
+			defer wg.Done()
+			for {
+				mu.Lock()
+				for len(q) == 0 && !closed {
+					notEmpty.Wait()
+				}
+				if len(q) == 0 && closed {
+					mu.Unlock()
+					return
+				}
+				v := q[0]
+				q = q[1:]
+				total += v
+				mu.Unlock()
+			}
+		}()
+	}
+	for i := 1; i <= 10; i++ {
+		mu.Lock()
+		q = append(q, i)
+		mu.Unlock()
+		notEmpty.Signal()
+	}
+	mu.Lock()
+	closed = true
+	mu.Unlock()
+	notEmpty.Broadcast()
+	wg.Wait()
+	fmt.Println("cond-total", total)
 }
